@@ -1030,6 +1030,17 @@ class TE:
             try:
                 v = b.lookup(attr)
             except KeyError:
+                if attr in ("max_value", "min_value"):
+                    # zigpy's fixed-width integers, enums and bitmaps (trusted base): the inclusive range of the declared width
+                    import re as _re
+
+                    for nm in b.base_names():
+                        m_ = _re.fullmatch(r"(?:.*\.)?(u?)(?:int|enum|bitmap)(\d+)(?:_t)?", nm)
+                        if m_:
+                            bits = int(m_.group(2))
+                            signed = nm.rsplit(".", 1)[-1].startswith("int")
+                            lo, hi = (-(1 << (bits - 1)), (1 << (bits - 1)) - 1) if signed else (0, (1 << bits) - 1)
+                            return hi if attr == "max_value" else lo
                 if any(isinstance(c, (TypeRef, Unknown)) for c in b.mro()):
                     return TypeRef(f"{b.qual}.{attr}")
                 raise AnalysisError(f"{mod}:{e.lineno} class {b.name} has no attribute {attr}")
@@ -1121,12 +1132,26 @@ class TE:
                 except Exception as ex:
                     raise AnalysisError(f"{mod}:{e.lineno} {f.name}(): {ex}")
             raise AnalysisError(f"{mod}:{e.lineno} builtin {n} not modelled")
+        if isinstance(f, TypeRef) and f.name in ("struct.Struct", "struct.calcsize") and all(isinstance(a, (str, bytes)) for a in args) and not kw:
+            import struct as _struct  # trusted base, modelled by itself: a precompiled format is a constant of the module
+
+            try:
+                return getattr(_struct, f.name[7:])(*args)
+            except _struct.error as ex:
+                raise AnalysisError(f"{mod}:{e.lineno} {f.name}{args!r}: {ex}")
         if isinstance(f, FuncRef) and f.cls is None:
             return self.inline(f, args, kw, mod, e)
         if isinstance(f, Record) and f.ctor == TypeRef("builtins.lambda"):
             return self.call_lambda(f, args, kw)
         if isinstance(f, TypeRef) and f.name in _LIB_FUNCS and not kw:
             return self.lib_call(f.name, args, mod, e)
+        if isinstance(f, ClassRef) and f.is_enum and len(args) == 1 and not kw and (isinstance(args[0], int) or isinstance(args[0], Member)):
+            # EnumClass(value): the member with that value; zigpy's enums (trusted base) make up a member for an undefined value
+            val = args[0].value if isinstance(args[0], Member) else int(args[0])
+            for nm, mv in f.members().items():
+                if mv.value == val:
+                    return mv
+            return Member(f, f"undefined_0x{val:02x}", val)
         if isinstance(f, (TypeRef, ClassRef)):
             return Record(f, args, kw)
         raise AnalysisError(f"{mod}:{e.lineno} call of {f!r}")
